@@ -127,6 +127,9 @@ func drawBookPeer(st *simrt.Stream, spec *TorSpec, name string, port int) PeerCf
 	case 2: // mostly trouble
 		cfg.AnswerWeights = []int{2, 2, 2, 2, 2, 2, 2, 1, 2, 1}
 	}
+	if st.Bool(1, 4) {
+		cfg.LeaveAfterHandshake = 3
+	}
 	maxDelay := simrt.Pick(st, 30, 0, 500, 3000)
 	cfg.AnswerDelay = func() time.Duration { return time.Duration(st.Choice(maxDelay+1)) * time.Millisecond }
 	if cfg.Fast && st.Bool(1, 3) {
@@ -267,5 +270,8 @@ func bookMain(rc *RunCtx) {
 		checkBookkeeping(rc, w, t, spec, "after-all-left", 0)
 	} else {
 		simrt.Probe("no-final-quiescent-point")
+		if w.LoopStuck(t) {
+			rc.Fail("C05", "event-loop-stuck", "", "two minutes after every peer has left the torrent's event loop does not answer a status query any more (%d events queued): handling some event never terminated", t.SimEventLen())
+		}
 	}
 }
